@@ -229,6 +229,110 @@ def judge_matcher_closure(ctx, E, crate, label, cpath, caps):
         E.ap_operand(cfa, src["term"]["args"][1]), caps))
 
 
+def _capture_locals(fa, ops):
+    """for each captured operand of a closure aggregate: the local it is, or refers to"""
+    out = []
+    for o in ops:
+        pl = op_place(o)
+        l = None
+        for _ in range(6):
+            if pl is None:
+                break
+            if pl["p"] and not all(e == "*" for e in pl["p"]):
+                break
+            d = fa.single_def(pl["l"])
+            if d is not None and d[2] == "assign" and d[3]["k"] in ("ref", "rawptr") and not d[3]["place"]["p"]:
+                l = d[3]["place"]["l"]
+                break
+            if d is not None and d[2] == "assign" and d[3]["k"] == "use" and op_place(d[3]["op"]) is not None:
+                pl = op_place(d[3]["op"])
+                continue
+            l = pl["l"]
+            break
+        out.append(l)
+    return out
+
+
+def _closure_defs(E, fa):
+    """closure local -> (path, capture APs, capture locals) for the closures created in fa"""
+    out = {}
+    for b, i, s0 in fa.stmts():
+        rv = s0.get("rv")
+        if rv and rv["k"] == "agg" and rv.get("agg") == "closure" and not s0["lhs"]["p"]:
+            out[s0["lhs"]["l"]] = (rv["closure"], [E.ap_operand(fa, o) for o in rv["ops"]],
+                                   _capture_locals(fa, rv["ops"]))
+    return out
+
+
+def _closure_of(fa, defs, op):
+    pl = op_place(op)
+    for _ in range(8):
+        if pl is None:
+            return None
+        if pl["l"] in defs and all(e == "*" for e in pl["p"]):
+            return pl["l"]
+        d = fa.single_def(pl["l"])
+        if d is None or d[2] != "assign":
+            return None
+        rv = d[3]
+        pl = op_place(rv["op"]) if rv["k"] in ("use", "cast") else rv.get("place") if rv["k"] in ("ref", "rawptr") else None
+    return None
+
+
+def judge_per_match_closure(ctx, E, crate, label, cdef, hm_local, where, outer_sets_flag=False):
+    """CAND/PAIR obligations read inside a closure that is applied to each lexicon match
+    (`|m: LexMatch| { lattice.insert_node(..); has_matched = true; }`)."""
+    cpath, caps, caplocals = cdef
+    cfa = E.fa(cpath)
+    CS = Sym(E, cfa)
+    rets = cfa.return_blocks()
+    ins = calls_named(cfa, "insert_node")
+    oki = len(ins) == 1 and all(must_pass(cfa, r, {ins[0][0]}) for r in rets)
+    ctx.ob("CAND", "add_lattice_edges|%s-every-match-inserted" % label, oki, where,
+           "every %s-lexicon match becomes a lattice node" % label if oki else
+           "a %s-lexicon match can be skipped without inserting a node" % label)
+    # has_matched: a store of `true` through the capture that refers to the flag
+    okh = False
+    for b, i, s0 in cfa.stmts():
+        if "lhs" in s0 and s0["lhs"]["p"] and s0["rv"]["k"] == "use" and \
+                (op_const(s0["rv"]["op"]) or {}).get("int") == 1:
+            a = E.ap_place(cfa, s0["lhs"])
+            if a is not None and a.root == ("arg", 1) and a.proj and str(a.proj[0]).startswith("#"):
+                k = int(str(a.proj[0])[1:])
+                if k < len(caplocals) and caplocals[k] == hm_local and \
+                        all(must_pass(cfa, r, {b}) for r in rets):
+                    okh = True
+    okh = okh or outer_sets_flag
+    ctx.ob("CAND", "add_lattice_edges|%s-sets-has_matched" % label, okh, where,
+           "a %s-lexicon match sets the flag passed to gen_unk_words (so invoke=0 categories "
+           "add no unknown word next to a dictionary word)" % label if okh else
+           "a %s-lexicon match does not set has_matched: unknown words are generated as if "
+           "nothing had matched" % label)
+    if ins:
+        ib, it = ins[0]
+        ia = [CS.operand(x) for x in it["args"]]
+
+        def outer(op):
+            a = E.ap_operand(cfa, op)
+            return Effects.map_closure_ap(a, caps) if a is not None else None
+        ok_pos = outer(it["args"][1]) == AP(("arg", 4)) and outer(it["args"][2]) == AP(("arg", 5))
+        end = ia[3]
+        ok_end = end[0] == "binop" and end[1] == "Add" and "end_char" in show(end) and \
+            any(Effects.map_closure_ap(x[1], caps) == AP(("arg", 5)) for x in (end[2], end[3]) if x[0] == "ap")
+        m_ap = [E.ap_operand(cfa, it["args"][k]) for k in (4, 5)]
+        ok_pair = all(a is not None and a.root == ("arg", 2) for a in m_ap) and \
+            str(m_ap[0].proj[-1]) == "word_idx" and str(m_ap[1].proj[-1]) == "word_param"
+        ctx.ob("PAIR", "add_lattice_edges|%s|idx-and-param-from-same-match" % label, ok_pair, where,
+               "word_idx and word_param of an inserted node come from the same lexicon match"
+               if ok_pair else
+               "insert_node receives word_idx=%s and word_param=%s from different matches"
+               % (show(ia[4]), show(ia[5])))
+        ctx.ob("CAND", "add_lattice_edges|%s|positions" % label, ok_pos and ok_end, where,
+               "node inserted with (start_node, start_word, start_word + match length)"
+               if ok_pos and ok_end else
+               "node inserted with positions (%s, %s, %s)" % (show(ia[1]), show(ia[2]), show(ia[3])))
+
+
 def loop_parts(fa, nb):
     sw = fa.term(nb).get("t")
     st = fa.term(sw)
@@ -258,6 +362,17 @@ def cand(ctx):
            "some path returns without consulting the unknown-word handler")
     hm_bl = base_local(fa, gt["args"][3])
     hm_local = hm_bl[0] if hm_bl else None
+    if hm_local is None:
+        # the flag variable itself: follow plain copies back from the argument
+        pl_ = op_place(gt["args"][3])
+        for _ in range(6):
+            if pl_ is None or pl_["p"]:
+                break
+            hm_local = pl_["l"]
+            d_ = fa.single_def(pl_["l"])
+            if d_ is None or d_[2] != "assign" or d_[3]["k"] != "use" or op_place(d_[3]["op"]) is None:
+                break
+            pl_ = op_place(d_[3]["op"])
     a = [S.operand(x) for x in gt["args"]]
     ok_args = a[0][0] == "ap" and a[0][1].proj[-1:] == ("unk_handler",) and \
         a[1] == ("ap", AP(("arg", 2))) and a[2] == ("ap", AP(("arg", 5))) and \
@@ -269,6 +384,42 @@ def cand(ctx):
     suffixes = set()
     for src, label, optional in (("user_lexicon", "user", True), ("system_lexicon", "system", False)):
         loops = loops_over(E, fa, S, src)
+        cdefs = _closure_defs(E, fa)
+        # `lexicon.common_prefix_iterator(suffix).for_each(&mut insert_match)`
+        fe_sites = []
+        if not loops:
+            for fb, ft in calls_named(fa, "for_each"):
+                if len(ft["args"]) < 2:
+                    continue
+                cl = _closure_of(fa, cdefs, ft["args"][1])
+                if cl is None:
+                    continue
+                for srcd in _feeds(E, fa, ft["args"][0]):
+                    if srcd["lex"] is not None and src in [str(x) for x in srcd["lex"].proj] and not srcd["drop"]:
+                        fe_sites.append((fb, cl, srcd))
+        if len(fe_sites) == 1:
+            fb, cl, srcd = fe_sites[0]
+            ctx.ob("CAND", "add_lattice_edges|%s-lexicon-consulted" % label, True, fa.loc(fb),
+                   "the %s lexicon is searched for prefixes of the remaining text" % label)
+            suffixes.add(srcd["suffix"])
+            through = {fb}
+            if optional:
+                ulap = E.ap_operand(fa, srcd["term"]["args"][0])
+                for b in sorted(fa.live_blocks()):
+                    t = fa.term(b)
+                    if t["k"] == "switch":
+                        o = fa.origin(t["op"])
+                        if o[0] == "rv" and o[1]["k"] == "discr":
+                            x = E.ap_place(fa, o[1]["place"])
+                            if ulap is not None and x == ulap:
+                                through.add(t["otherwise"])
+            okp = all(must_pass(fa, r, through) for r in rets)
+            ctx.ob("CAND", "add_lattice_edges|%s-loop-on-every-path" % label, okp, fa.loc(fb),
+                   "every path runs the %s-lexicon search%s" % (label, " (or the lexicon is absent)"
+                                                                if optional else "") if okp else
+                   "the %s-lexicon search can be bypassed" % label)
+            judge_per_match_closure(ctx, E, crate, label, cdefs[cl], hm_local, fa.loc(fb))
+            continue
         sites = closure_sites(E, fa, S, src) if not loops else []
         if len(sites) == 1:
             sb, cpath, caps, dest = sites[0]
@@ -339,6 +490,24 @@ def cand(ctx):
         some_t, none_t = loop_parts(fa, nb)
         body = fa.reachable(some_t, avoid={nb})
         ins = [(b, t) for b, t in calls_named(fa, "insert_node") if b in body]
+        if not ins:
+            # `for m in .. { insert_match(m); }`: the body applies a local closure to each match
+            applied = []
+            for xb in sorted(body):
+                xt = fa.term(xb)
+                if xt["k"] == "call" and (callee_of(xt) or {}).get("name") in ("call_mut", "call", "call_once") \
+                        and len(xt["args"]) == 2:
+                    cl = _closure_of(fa, cdefs, xt["args"][0])
+                    if cl is not None:
+                        applied.append((xb, cl))
+            if len(applied) == 1 and nb not in fa.reachable(some_t, avoid={applied[0][0]}):
+                hb0 = [b for b in body for s0 in fa.blocks[b]["stmts"]
+                       if "lhs" in s0 and s0["lhs"]["l"] == hm_local and not s0["lhs"]["p"]
+                       and s0["rv"]["k"] == "use" and (op_const(s0["rv"]["op"]) or {}).get("int") == 1]
+                outer_flag = bool(hb0) and nb not in fa.reachable(some_t, avoid=set(hb0))
+                judge_per_match_closure(ctx, E, crate, label, cdefs[applied[0][1]], hm_local,
+                                        fa.loc(applied[0][0]), outer_flag)
+                continue
         oki = len(ins) == 1 and nb not in fa.reachable(some_t, avoid={ins[0][0]})
         ctx.ob("CAND", "add_lattice_edges|%s-every-match-inserted" % label, oki, fa.loc(nb),
                "every %s-lexicon match becomes a lattice node" % label if oki else
